@@ -1,3 +1,5 @@
+import CqlVerif.Spec.RetryGateShape
+import CqlVerif.Gen.RetryGateFacts
 import CqlVerif.Lemmas.Retry
 /-!
 # C04 — Non-idempotent requests are never re-executed once they may have been applied
@@ -40,5 +42,10 @@ theorem unsafe_outcome_is_final (rc : Nat) (o : Outcome) (h : safeToResend o = f
 example : let r := run (fun _ _ => false) false [0, 1, 2] [.unavailable, .writeTimeout "WriteTypeBatchLog", .success]
     r.attempts = [0, 1] ∧ r.reply = some (.forwarded 1) := by
   simp [run, go, pick, pickNext, skipDown, react, Retry.decide, Gen.RetryPolicy.onUnavailable]
+
+/-- **retry_gate_shape_ok** — `checkIdempotent`, `OnClose`, `OnResult` and `handleErrorResult` as read off /repo's
+current proxy/request.go (logging left out) are the ones Model/Retry.lean models: which outcomes consult the policy
+whatever the request, which only for idempotent requests, which never (regenerated on every run) -/
+theorem retry_gate_shape_ok : Gen.RetryGateFacts.facts = RetryGateShape.expected := by decide +kernel
 
 end CqlVerif.C04
